@@ -207,3 +207,41 @@ def run(ctx):
     # commit_impl uses self.seq and TransactionInner.seq is written only by constructors from args.seq
     cb = ctx.body(find_fn(f, "automerge::transaction::inner::TransactionInner::commit_impl"))
     ctx.note("not covered: ChangeGraph::load / ChangeGraphCols::finalize (uniqueness on load rests on ChangeCollector)")
+    # an incoming (actor, seq) collides with applied history when the actor's applied sequence number has reached it: `>=`, not `==`
+    ctx.rule("R3-cmp", "Automerge::has_actor_seq compares seq_for_actor(actor) >= change.seq()")
+    hb = ctx.body("automerge::automerge::Automerge::has_actor_seq")
+    cmps = []
+    for bi, blk in enumerate(hb.blocks):
+        for st in blk["st"]:
+            rv = st["rv"]
+            if rv["k"] == "Bin" and rv.get("op") in ("Ge", "Gt", "Le", "Lt", "Eq", "Ne"):
+                srcs = [{N(c).split("::")[-1] for c in hb.provenance(o, through_calls=True).callees()} for o in rv["o"]]
+                cmps.append((rv["op"], srcs, st["sp"]))
+    ctx.floor("comparisons in has_actor_seq", len(cmps), 1)
+    for op, srcs, sp in cmps:
+        applied_left = "seq_for_actor" in srcs[0] and "seq" in srcs[1]
+        applied_right = "seq_for_actor" in srcs[1] and "seq" in srcs[0]
+        ok = (op == "Ge" and applied_left) or (op == "Le" and applied_right)
+        ctx.ob("R3-cmp", "has_actor_seq|applied seq >= incoming seq", ok, sp, "operator %s" % op if ok else
+               "the test is `%s`: an incoming change that re-uses a sequence number below the actor's latest applied one is not recognised as a duplicate" % op)
+    # the queue's (actor, seq) and hash indexes are only edited element-wise: a whole-field assignment forgets what was queued before
+    ctx.rule("R3-index", "ChangeQueue.hashes / incoming_actor_seqs are never assigned as a whole outside the constructor")
+    CQ = "automerge::change_queue::ChangeQueue"
+    whole = []
+    for p, r in sorted(f.fns.items()):
+        if r["ckey"] != ("automerge", "lib") or r.get("container") != CQ:
+            continue
+        b = cfg.body(r)
+        for blk in b.blocks:
+            if blk.get("cleanup"):
+                continue
+            for st in blk["st"]:
+                d = st["d"]
+                if d["p"] and d["p"][-1] in (".hashes", ".incoming_actor_seqs") and b.origin(d["l"], tuple(d["p"]))[0] == 1 and N(p).split("::")[-1] != "new":
+                    # `mem::take` style rewrites assign a freshly built value: what matters is whether the old contents survive
+                    pv = b.provenance(st["rv"]["o"][0], through_calls=True) if st["rv"].get("o") else None
+                    keeps = pv is not None and any(d["p"][-1] in b.origin(l, pr)[1] and b.origin(l, pr)[0] == 1 for l, pr in pv.places)
+                    if not keeps:
+                        whole.append("%s%s at %s" % (N(p).split("::")[-1], d["p"][-1], st["sp"]))
+    ctx.ob("R3-index", "ChangeQueue|indexes edited element-wise only", not whole, "", "no whole-field assignment" if not whole else
+           "an index of the queue is overwritten (%s): the claims of changes already waiting are forgotten, so a conflicting (actor, seq) is admitted" % whole)
